@@ -6,7 +6,7 @@ import subprocess, collections, re, sys
 out = subprocess.run(['/verif/bin/fvc', 'params'] + sys.argv[1:], capture_output=True, text=True, check=True).stdout
 byfile = collections.defaultdict(list)
 for ln in out.splitlines():
-    m = re.match(r'(.*?):(\d+): (params .*)$', ln)
+    m = re.match(r'(.*?):(\d+): ((?:params|locals) .*)$', ln)
     if m:
         byfile[m.group(1)].append((int(m.group(2)), m.group(3)))
 n = 0
@@ -17,4 +17,4 @@ for f, items in byfile.items():
         L.insert(line, '//@   ' + text)
         n += 1
     open(f, 'w').write('\n'.join(L))
-print('pinned', n, 'contracts')
+print('pinned', n, 'clauses')
